@@ -198,6 +198,11 @@ func (r *Run) Violation(sig string, detail string, replay interface{}) {
 	if r.violations > 25 {
 		return
 	}
+	if r.violations == 25 {
+		// enough to decide and to diagnose: stop here instead of waiting for every remaining case (hangs cost 20 s each)
+		fmt.Printf("stopping after 25 distinct violations\n")
+		defer func() { go r.Finish() }()
+	}
 	dir := filepath.Join(VerifRoot(), "replays", r.Prop)
 	os.MkdirAll(dir, 0o755)
 	name := sanitize(sig)
